@@ -17,13 +17,14 @@ Record c06_root := mkRoot {
 Record c06_case := {
   q_roots : list c06_root;
   q_foreign : list val;
-  q_ops : list hop;
+  q_ops : list hstep;
+  q_embs : list nat;              (* extension factories whose embedded pointer joins the matrix *)
   q_res : list nat;               (* observed: cell index of each operation's result *)
   q_is : list (list nat);         (* observed errors.Is matrix: 0 false, 1 true, 2 panic *)
   q_extract : list (option nat) }.  (* observed ExtractFactoryReference per cell (None = nil) *)
 
 Definition root_cell_of (r : c06_root) : cell :=
-  mkC (mkG (r_name r) (r_msg r) (r_src r) [] None VNil VNil (r_isfac r)) (r_ext r).
+  mkC (mkG (r_name r) (r_msg r) (r_src r) [] None VNil VNil [] (r_isfac r)) (r_ext r).
 
 Definition c06_st0 (c : c06_case) : store := map root_cell_of (q_roots c).
 
@@ -33,8 +34,8 @@ Fixpoint infos0 (k : nat) (rs : list c06_root) : list binfo :=
   | r :: rest => mkB k true (r_isfac r) None false :: infos0 (S k) rest
   end.
 
-Definition all_refs (ncells nforeign : nat) : list vref :=
-  map RC (seq 0 ncells) ++ map RF (seq 0 nforeign) ++ [RNil].
+Definition all_refs (ncells : nat) (embs : list nat) (nforeign : nat) : list vref :=
+  map RC (seq 0 ncells) ++ map RE embs ++ map RF (seq 0 nforeign) ++ [RNil].
 
 Definition code_of (r : res bool) : nat :=
   match r with Ok false => 0 | Ok true => 1 | Panic => 2 | Fuel => 3 end.
@@ -79,7 +80,7 @@ Definition c06_model (c : c06_case) : option (list nat * list (list nat) * list 
   match run_ops ext_wiring (c06_st0 c) (q_foreign c) (q_ops c) with
   | None => None
   | Some (st, res) =>
-      let refs := all_refs (length st) (length (q_foreign c)) in
+      let refs := all_refs (length st) (q_embs c) (length (q_foreign c)) in
       let v := resolve st (q_foreign c) in
       Some (res,
             map (fun x => map (fun y => code_of (errors_is st (v x) (v y))) refs) refs,
@@ -128,7 +129,7 @@ Fixpoint extract_ok (infos : list binfo) (k : nat) (obs : list (option nat)) : b
 
 Definition c06_spec_ok (c : c06_case) : bool :=
   let '(infos, exp) := spec_ops (infos0 0 (q_roots c)) (q_ops c) in
-  let refs := all_refs (length infos) (length (q_foreign c)) in
+  let refs := all_refs (length infos) (q_embs c) (length (q_foreign c)) in
   res_ok exp (q_res c)
   && matrix_ok infos (q_foreign c) refs refs (q_is c)
   && Nat.eqb (length (q_extract c)) (length infos)
@@ -136,7 +137,7 @@ Definition c06_spec_ok (c : c06_case) : bool :=
 
 Definition c06_domain (c : c06_case) : bool :=
   forallb (fun r => match r_ext r with Some _ => r_isfac r | None => true end) (q_roots c)
-  && forallb (fun v => pure v && negb (is_nil v)) (q_foreign c)
+  && forallb (fun v => match v with VF _ _ _ _ => true | _ => false end) (q_foreign c)
   && Nat.eqb (length (q_res c)) (length (q_ops c)).
 
 (* entries that satisfy the specification (or on which it is silent) but differ from the model *)
@@ -180,7 +181,7 @@ Definition c06_model_mis (c : c06_case) : bool :=
   | None => true
   | Some (res, m, ex) =>
       let '(infos, exp) := spec_ops (infos0 0 (q_roots c)) (q_ops c) in
-      let refs := all_refs (length infos) (length (q_foreign c)) in
+      let refs := all_refs (length infos) (q_embs c) (length (q_foreign c)) in
       res_mis exp (q_res c) res
       || matrix_mis infos (q_foreign c) refs refs (q_is c) m
       || extract_mis infos 0 (q_extract c) ex
@@ -200,4 +201,5 @@ Definition c06_judge (c : c06_case) : nat :=
 (* non-trivial: the history derives from at least two different factories or converts a
    foreign error *)
 Definition c06_nontrivial (c : c06_case) : bool :=
-  existsb (fun o => is_convert (o_m o)) (q_ops c) || Nat.ltb 1 (length (q_roots c)).
+  existsb (fun s => match s with HOp o => is_convert (o_m o) | HFac _ => true end) (q_ops c)
+  || Nat.ltb 1 (length (q_roots c)).
